@@ -43,7 +43,7 @@ CHECKS = {
         note="Reals for binary64; kernel shapes L<=3,K<=2 (quick), L<=4,K<=3 (thorough); result-level obligations assume the Cauchy-Schwarz fact that the kernel-level obligations establish; numba/CUDA code generation trusted.",
         ref="DESIGN.md section 4 C09"),
     "C10": dict(
-        text="Symbolic verification of the 13 error attributes: __getattr__ runs on a generic bin (all statistics, fs and the integer n>=1 symbolic, unbounded) and the solver shows each attribute equal to the Bendat-Piersol expression written from the property text, dev=est*err, the 1/sqrt(n) law (n->4n halves), and the three phase-error clauses with arcsin as an uninterpreted function constrained by u<=asin u<=(pi/2)u. Tests only compare three deviations with Monte-Carlo scatter at one configuration.",
+        text="Symbolic verification of the 13 error attributes: __getattr__ runs on a generic bin (all statistics, fs and the integer n>=1 symbolic, unbounded) and the solver shows each attribute equal to the Bendat-Piersol expression written from the property text, dev=est*err, the 1/sqrt(n) law (n->4n halves), dev=est*err also after the result was plotted with a 2-sigma error band (real plot() on inert axes), and the three phase-error clauses with arcsin as an uninterpreted function constrained by u<=asin u<=(pi/2)u. Tests only compare three deviations with Monte-Carlo scatter at one configuration.",
         note="Reals for binary64; arcsin/sqrt by contract; the Monte-Carlo clause is statistical and outside the claim; assumes XX,YY>0 and 0<|XY|^2<=XX*YY (established for kernel outputs by C01/C09).",
         ref="DESIGN.md section 4 C10"),
     "C11": dict(
